@@ -38,7 +38,9 @@ MemCopyOutcomes1(e) ==
               must == W \cap R # {}
               disj == Rng(d, dmax) \cap R = {}
               ovl == Errs({ESOVRLP}, MemCleared(e))
-          IN IF must THEN ovl ELSE IF disj THEN {OkOut(MoveOkMem(e))} ELSE {OkOut(MoveOkMem(e))} \cup ovl
+          \* the documentation of the memcpy family defines the destination region as the dmax elements ("ESOVRLP when src memory
+          \* overlaps dst", zeros are stored in the first dmax bytes): a source inside it is a violation even behind the bytes written
+          IN IF must \/ ~disj THEN ovl ELSE {OkOut(MoveOkMem(e))}
 
 (* the 16/32-bit variants take a known, larger object size as the destination size
    ("dmax = destbos"); both readings are admitted *)
